@@ -240,3 +240,33 @@ Proof.
   - exact H12.
 Qed.
 End Mono.
+
+(* ================================================================== 4. every answer is on the tick grid *)
+Lemma aligned_plus a b : aligned a -> aligned b -> aligned (a + b).
+Proof. intros [k Hk] [m Hm]. exists (k + m)%Z. rewrite Hk, Hm, inject_Z_plus. field. Qed.
+
+Lemma run_states_aligned : forall es s, aligned (s_beat s) -> (forall e, In e es -> aligned (e_beat e)) ->
+  forall x, In x (run_states s es) -> aligned (s_beat x).
+Proof.
+  induction es as [|e r IH]; intros s As Ae x Hx; cbn [run_states] in Hx.
+  - destruct Hx as [<-|[]]. exact As.
+  - destruct Hx as [<-|Hx]; [exact As|]. apply (IH (advance s e)); [unfold advance; cbn [s_beat]; apply Ae; left; reflexivity| |exact Hx].
+    intros e' He'. apply Ae. right. exact He'.
+Qed.
+
+Theorem beat_at_aligned_td td v0 : (forall e, In e (events td) -> exists k : Z, e_beat e == inject_Z k / 48) ->
+  forall t q, aligned (fst (beat_at_raw (sts td v0) (init_state td v0) t q)).
+Proof.
+  intros Hticks t q.
+  assert (Hne : sts td v0 <> []) by (unfold sts; destruct (events td); discriminate).
+  pose proof (idx_of_lt (init_state td v0) (sts td v0) t q Hne) as L.
+  set (p := nth (idx_of (sts td v0) t q) (sts td v0) (init_state td v0)).
+  assert (Ap : aligned (s_beat p)).
+  { apply (run_states_aligned (events td) (init_state td v0)); [exists 0%Z; cbn [init_state s_beat]; reflexivity|exact Hticks|].
+    apply nth_In. exact L. }
+  destruct (tick_round_is_tick ((t - s_time p) / 60 * s_bpm p)) as [k Hk].
+  assert (E := beat_at_raw_answer (sts td v0) (init_state td v0) t q). fold p in E.
+  unfold answer in E. destruct (is_pause_tag (s_tag p)).
+  - destruct Ap as [m Hm]. exists m. rewrite E. exact Hm.
+  - destruct (aligned_plus _ _ Ap (ex_intro _ k Hk)) as [m Hm]. exists m. rewrite E. exact Hm.
+Qed.
